@@ -70,10 +70,18 @@ func (f *gateFam) play(l *Line, out *rec) error {
 					var ivals [][2]int
 					wlok := true
 					open := false
+					panics := 0
 					for ll := -128; ll <= 127; ll++ {
 						w := &lvlW{}
 						lg := zerolog.New(w).Level(zerolog.Level(ll))
-						lg.WithLevel(zerolog.Level(e)).Msg("m")
+						func() {
+							defer func() {
+								if recover() != nil {
+									panics++
+								}
+							}()
+							lg.WithLevel(zerolog.Level(e)).Msg("m")
+						}()
 						if w.n > 0 {
 							if w.n != 1 || w.lvls[0] != e {
 								wlok = false
@@ -91,7 +99,7 @@ func (f *gateFam) play(l *Line, out *rec) error {
 					if ivals == nil {
 						ivals = [][2]int{}
 					}
-					out.emit(map[string]interface{}{"a": "Cube", "e": e, "g": g, "written": ivals, "wlok": wlok})
+					out.emit(map[string]interface{}{"a": "Cube", "e": e, "g": g, "written": ivals, "wlok": wlok, "panics": panics})
 				}
 			}
 		case "Entry":
